@@ -10,7 +10,7 @@ From TLV Require Import Base.Shape Base.PyList Base.Tensor Base.Ops Model.Base M
      Proofs.SvdDecompTuckerErr Proofs.SvdDecompTuckerBound Proofs.SvdDecompHosvdBound
      Proofs.SvdDecompPartial Proofs.SvdDecompTuckerGen Proofs.SvdDecompRingErr Proofs.SvdDecompTTMErr
      Proofs.SvdDecompValidate Proofs.SvdDecompRingPartial Proofs.SvdDecompRingErrR
-     Proofs.SvdDecompRankCond Model.SvdDecompSymeig Proofs.SvdDecompSymeig Proofs.SvdDecompSymeigRing Proofs.SvdDecompSymeigEig Model.SvdDecompRand Proofs.SvdDecompRand Proofs.SvdDecompEckartYoung Proofs.SvdDecompTTUpper Proofs.SvdDecompMethodsTucker Proofs.SvdDecompTTRank Proofs.SvdDecompTTMRank Proofs.SvdDecompTuckerRank Proofs.SvdDecompHooiBound Proofs.SvdDecompRingRank Proofs.SvdDecompTuckerSemi Proofs.SvdDecompTuckerSemiEx Proofs.SvdDecompSymeigWide Proofs.SvdDecompRingUpper Proofs.SvdDecompRingCuts Proofs.SvdDecompRingRanks Proofs.SvdDecompRingEx.
+     Proofs.SvdDecompRankCond Model.SvdDecompSymeig Proofs.SvdDecompSymeig Proofs.SvdDecompSymeigRing Proofs.SvdDecompSymeigEig Model.SvdDecompRand Proofs.SvdDecompRand Proofs.SvdDecompEckartYoung Proofs.SvdDecompTTUpper Proofs.SvdDecompMethodsTucker Proofs.SvdDecompTTRank Proofs.SvdDecompTTMRank Proofs.SvdDecompTuckerRank Proofs.SvdDecompHooiBound Proofs.SvdDecompRingRank Proofs.SvdDecompTuckerSemi Proofs.SvdDecompTuckerSemiEx Proofs.SvdDecompSymeigWide Proofs.SvdDecompRingUpper Proofs.SvdDecompRingCuts Proofs.SvdDecompRingRanks Proofs.SvdDecompRingEx Proofs.SvdDecompTTMBounds Proofs.SvdDecompRingRequested.
 Import ListNotations.
 
 (* exactness of one TT-SVD step, over every commutative ring: truncating + sign-flipping a
@@ -1385,3 +1385,76 @@ Print Assumptions C09_tensor_ring_realised.
 
 Example C09_nonvacuous_realised_body_r0 : realised_body_r0 2 [3; 2; 2] 2 [6; 1; 2] = [6; 1].
 Proof. exact realised_body_r0_instance. Qed.
+
+(* ============================================================ tensor_train_matrix: quasi-optimality (round 8), FULL ========== *)
+(* any commutative ring, any oracle: with more than one mode pair the run of tensor_train_matrix IS the run of tensor_train on the
+   interleaved, pair-merged tensor T with every core split again, and its squared error is the TT-SVD error on T *)
+Theorem C09_ttm_err2_tt_err2 : forall (F : Type) (Op : fops F),
+  ring_theory (f0 Op) (f1 Op) (fadd Op) (fmul Op) (fsub Op) (fopp Op) (@eq F) ->
+  forall (svd : nat -> tensor F -> svdans) (X : tensor F) (rank : rank_spec) (cores : list (tensor F)),
+  ndim X / 2 <> 1 -> tensor_train_matrix Op svd X rank = Ok cores ->
+  exists fs, tensor_train Op svd (ttm_T Op X) rank = Ok fs /\
+             cores = ttm_split (firstn (ndim X / 2) (shape X)) (skipn (ndim X / 2) (shape X)) fs /\
+             length fs = ndim X / 2 /\ ndim X = 2 * (ndim X / 2) /\
+             ttm_err2 Op X cores = tt_err2 Op (ttm_T Op X) fs.
+Proof. exact @ttm_err2_tt_err2. Qed.
+Print Assumptions C09_ttm_err2_tt_err2.
+
+(* upper bound: squared error <= sum over the sequential unfoldings of T of their discarded squared singular values at the bonds
+   the run realises (svdX: LAPACK's plain contract for the unfoldings of T); a single mode pair is returned as it is *)
+Theorem C09_tensor_train_matrix_error_upper : forall (svd svdX : nat -> tensor R -> svdans) (X : tensor R) (rank : rank_spec)
+  (cores : list (tensor R)),
+  0 < prod (shape (ttm_tensor X)) -> tt_sorted svd (ttm_tensor X) rank ->
+  x_contract_from svdX (ttm_tensor X) 1 (tt_rank_list svd (ttm_tensor X) rank) ->
+  tensor_train_matrix Rops svd X rank = Ok cores ->
+  (ttm_err2 Rops X cores <= (if Nat.eqb (ndim X / 2) 1 then 0 else Rsum (x_tail_list svd svdX (ttm_tensor X) rank)))%R.
+Proof. exact tensor_train_matrix_error_upper. Qed.
+Print Assumptions C09_tensor_train_matrix_error_upper.
+
+(* lower bound, every cut after k mode pairs, no contract on the run's own oracle: the squared error is at least the discarded tail
+   of the k-th sequential unfolding of T at the bond the returned 4-D core k-1 really has (its last dimension) *)
+Theorem C09_tensor_train_matrix_error_lower : forall (svd : nat -> tensor R -> svdans) (X : tensor R) (rank : rank_spec)
+  (cores : list (tensor R)) (k : nat) (aX : svdans),
+  tensor_train_matrix Rops svd X rank = Ok cores -> 0 < k -> k < ndim X / 2 ->
+  svd_sorted_contract (x_unfolding (ttm_tensor X) k) (prod (firstn k (shape (ttm_tensor X))))
+                      (prod (skipn k (shape (ttm_tensor X)))) (nth 3 (shape (nth (k - 1) cores (mk [] []))) 0) aX ->
+  (tail2 Rops (nth 3 (shape (nth (k - 1) cores (mk [] []))) 0%nat) (snd3 aX) <= ttm_err2 Rops X cores)%R.
+Proof. exact tensor_train_matrix_error_lower. Qed.
+Print Assumptions C09_tensor_train_matrix_error_lower.
+
+(* diag(2, 1) tensorised with mode pairs (2 x 1), (2 x 1), request (1,1,1): a genuine truncation meeting every hypothesis *)
+Example C09_nonvacuous_ttm_bounds :
+  let svd := fun (_ : nat) (_ : tensor R) => ey_a in
+  ndim ttmB_X / 2 <> 1 /\ 0 < 1 < ndim ttmB_X / 2 /\
+  0 < prod (shape (ttm_tensor ttmB_X)) /\ tt_sorted svd (ttm_tensor ttmB_X) (inr [1; 1; 1]) /\
+  x_contract_from svd (ttm_tensor ttmB_X) 1 (tt_rank_list svd (ttm_tensor ttmB_X) (inr [1; 1; 1])) /\
+  svd_sorted_contract (x_unfolding (ttm_tensor ttmB_X) 1) (prod (firstn 1 (shape (ttm_tensor ttmB_X))))
+                      (prod (skipn 1 (shape (ttm_tensor ttmB_X)))) 1 ey_a.
+Proof. exact ttm_bounds_hypotheses_satisfiable. Qed.
+
+(* ============================================================ tensor_ring: the rank condition on the REQUESTED ranks (round 8), FULL == *)
+(* tr_requested_condition mentions X and the validated request only (no oracle answer, no realised bond): the first unfolding of the
+   (rotated) input has rank <= rank[0] * rank[1], and its k-th sequential unfolding (s0 n_1 ... n_k) x (n_{k+1} ... n_{d-1}) has a rank
+   rho_k with rho_k * rank[0] <= the requested rank[k+1] (for rank[0] = 1: requested ranks >= ranks of the unfoldings, as for TT-SVD).
+   Then -- LAPACK's plain contract with sorted singular values for the answers of the run -- tensor_ring reproduces X, every start mode *)
+Theorem C09_ring_requested_to_realised : forall (svd : nat -> tensor R -> svdans) (Xp : tensor R) (rk : list nat),
+  0 < prod (tl (shape Xp)) * nth 0 rk 0 ->
+  tr_core_sorted svd Xp rk -> tr_core_requested_condition Xp rk -> tr_core_rank_condition svd Xp rk.
+Proof. exact tr_core_rank_condition_from_requested. Qed.
+Print Assumptions C09_ring_requested_to_realised.
+
+Theorem C09_tensor_ring_exact_requested_ranks : forall (svd : nat -> tensor R -> svdans) (X : tensor R) (rank : rank_spec)
+  (mode : nat) (cores : list (tensor R)),
+  tr_sorted svd X rank mode -> tr_requested_condition X rank mode ->
+  tensor_ring Rops svd X rank mode = Ok cores ->
+  forall idx, inb (shape X) idx -> tr_entry Rops cores idx = get 0%R X idx.
+Proof. exact tensor_ring_exact_requested_ranks. Qed.
+Print Assumptions C09_tensor_ring_exact_requested_ranks.
+
+Example C09_nonvacuous_tr_requested_order3 :
+  let svd := fun (_ : nat) (_ : tensor R) => zans in
+  tr_sorted svd zX (inr [2; 1; 2; 2]) 0 /\ tr_requested_condition zX (inr [2; 1; 2; 2]) 0.
+Proof. exact tr_requested_condition_order3_satisfiable. Qed.
+
+Example C09_nonvacuous_tr_requested_ones : tr_requested_condition onesX (inr [2; 1; 2; 2]) 0.
+Proof. exact tr_requested_condition_ones. Qed.
